@@ -18,15 +18,15 @@ LEVEL = "exploration"
 RULE = ("many short runs (5-40 stored points): dimensions 2-6, ||L|| dt in [0.02, 0.6], methods short-exp-2/4/6, refinement 1-8, operator and tensor form, "
         "with/without RWA blocks, initial states mixed/pure/population-only, Hamiltonians with degenerate levels; Lindblad forms with 1-3 random real operators; "
         "Redfield/Foerster/combined tensors from C01's generator (trace and Hermiticity; exponential agreement for the time-independent ones); Lorentzian and "
-        "Gaussian pure dephasing (symmetric rate matrices; trace and Hermiticity only); closed systems: density-matrix and state-vector propagators, "
+        "Gaussian pure dephasing (symmetric rate matrices; trace, Hermiticity and agreement with the exactly integrated splitting scheme); closed systems: density-matrix and state-vector propagators, "
         "laboratory vs rotating frame. distinct = (class, dim, method, Nref, form, RWA, dephasing type, state class, rounded generator); non-trivial iff the "
         "state moves by more than 100x the bound over the run (so that a wrong order or a wrong generator is visible).")
 ASSUMPTIONS = ["the bound is ||rho_n - exact|| <= m M^2 loc (1+loc)^m ||rho_0||, loc = x^(L+1)/(L+1)! e^x, x = ||L||_2 dt, M = max_k ||expm(L dt)^k||_2 computed "
                "by the oracle; a better integrator than the Taylor polynomial would pass as well",
-               "with a PureDephasing object the propagator multiplies by a decay factor after every sub-step (operator splitting): those runs decide trace and Hermiticity only",
+               "with a PureDephasing object the propagator multiplies by the exact decay factor after every refined sub-step (operator splitting): the reference for those runs is the same splitting with the exact sub-step exponential of the GKSL generator, so only the truncation of the expansion separates the two; the splitting error itself (first order in dt/Nref) is not judged",
                "propagation with external fields is outside the statement"]
 MIN_NONTRIVIAL = {"quick": 100, "thorough": 700}
-REQUIRED_CLAUSES = ["trace", "hermitian", "positive", "lindblad==expm", "closed:norm-purity-energy", "closed:psi-vs-rho", "closed:rwa==lab", "tensor-generator==expm"]
+REQUIRED_CLAUSES = ["trace", "hermitian", "positive", "lindblad==expm", "lindblad+dephasing==split-expm", "closed:norm-purity-energy", "closed:psi-vs-rho", "closed:rwa==lab", "tensor-generator==expm"]
 TIMEOUT = {"quick": 900, "thorough": 3400}
 EPS = numpy.finfo(float).eps
 METHODS = {"short-exp-2": 2, "short-exp-4": 4, "short-exp-6": 6, "short-exp": 4}
@@ -80,6 +80,17 @@ def gen_cases(tier, rng):
                       "ops": ops, "rates": rates, "as_operators": bool(rng.random() < 0.5), "method": method, "nref": nref, "Nt": Nt, "dt": dt,
                       "state": str(rng.choice(["mixed", "pure", "populations"])), "seed": int(rng.integers(1 << 30)),
                       "pdeph": (str(rng.choice(["Lorentzian", "Gaussian"])) if rng.random() < 0.2 else None), "cost": 1 + Nt * nref * METHODS[method] / 60.0})
+    # every (form, dephasing type) with a refined step is present in every run
+    k = 0
+    for c in cases:
+        if c["cls"] == "lindblad" and k < 8:
+            c["as_operators"] = bool(k % 2)
+            c["pdeph"] = ["Lorentzian", "Gaussian"][(k // 2) % 2]
+            if c["nref"] == 1:
+                c["nref"] = 2 + (k // 4)
+                c["dt"] = r3(c["dt"] * c["nref"])
+                c["cost"] = 1 + c["Nt"] * c["nref"] * METHODS[c["method"]] / 60.0
+            k += 1
     m = 40 if tier == "quick" else 260
     for i in range(m):
         dim = int(rng.integers(2, 7))
@@ -192,7 +203,37 @@ def run_case(case, ctx):
             ctx.nontrivial(moved > 100 * float(bounds[-1] * 4 + 1e-12) and sum(case["rates"]) > 0)
         else:
             valid_state_checks(ctx, data, det, bounds, positive=False)
-            ctx.nontrivial(True)
+            # the scheme the propagator documents: every refined sub-step is the generator's step followed by the exact decay factor
+            # of the pure dephasing over that sub-step.  Reference: the same splitting with the EXACT sub-step exponential; what is left
+            # between the two is the truncation of the short-time expansion only.
+            import scipy.linalg as sl
+            h = case["dt"] / nref
+            Uh = sl.expm(L * h)
+            ref = numpy.zeros_like(data)
+            ref[0] = rho0
+            rho = rho0.copy()
+            S0 = None
+            for n in range(1, case["Nt"]):
+                tN = float(t.data[n - 1])
+                for jj in range(nref):
+                    tt = tN + jj * h
+                    rho = gksl.unvec(Uh @ gksl.vec(rho), dim)
+                    fac = numpy.exp(-G * h) if case["pdeph"] == "Lorentzian" else numpy.exp(-G * h * h / 2.0) * numpy.exp(-G * h * tt)
+                    if S0 is None:
+                        S0 = numpy.diag(fac.reshape(-1)) @ Uh
+                    rho = rho * fac
+                ref[n] = rho
+            # stability constant of the split step map (decay factors only contract)
+            Ms, P = 1.0, numpy.eye(dim * dim, dtype=complex)
+            for k in range(min(case["Nt"] * nref, 400)):
+                P = S0 @ P
+                Ms = max(Ms, float(numpy.linalg.norm(P, 2)))
+            err = numpy.sqrt(numpy.sum(numpy.abs(data - ref) ** 2, axis=(1, 2)))
+            b = bounds * 4 * max(1.0, Ms / M) ** 2 + 1e-12
+            i = int(numpy.argmax(err / b))
+            ctx.check("lindblad+dephasing==split-expm", float(err[i]), float(b[i]), dict(det, index=i, Ms=Ms))
+            moved = float(numpy.max(numpy.abs(ref - rho0[None])))
+            ctx.nontrivial(moved > 100 * float(b[-1]))
         ctx.key(("lindblad", dim, case["method"], nref, case["as_operators"], case["rwa"], case["pdeph"], case["state"], case["seed"]))
         return
 
